@@ -494,7 +494,7 @@ func checkDoc(c cfg, doc []byte, on result) (viol vlist) {
 		// statement order depends on map iteration in these decoders: compare as multisets up to
 		// blank-node renaming
 		if !sameWires(on.stmts, offR.stmts) && !isoBounded(on.stmts, offR.stmts) {
-			viol.add("capture-changes-statement", "", "capture changes the statements (compared as multisets up to blank-node renaming): %v vs %v", wiresOf(on.stmts), wiresOf(offR.stmts))
+			viol.add("capture-changes-statement", wsOnlyDiff(on.stmts, offR.stmts), "capture changes the statements (compared as multisets up to blank-node renaming): %v vs %v", wiresOf(on.stmts), wiresOf(offR.stmts))
 		}
 		for i := range offR.stmts {
 			for k := range offR.stmts[i].r {
@@ -506,7 +506,7 @@ func checkDoc(c cfg, doc []byte, on result) (viol vlist) {
 	} else {
 		for i := range on.stmts {
 			if on.stmts[i].wire != offR.stmts[i].wire {
-				viol.add("capture-changes-statement", "", "capture changes statement %d: %s vs %s", i, on.stmts[i].wire, offR.stmts[i].wire)
+				viol.add("capture-changes-statement", wsOnlyDiff(on.stmts, offR.stmts), "capture changes statement %d: %s vs %s", i, on.stmts[i].wire, offR.stmts[i].wire)
 			}
 			for k := range offR.stmts[i].r {
 				if offR.stmts[i].r[k].ok {
@@ -720,6 +720,31 @@ func wiresOf(ss []stmt) []string {
 		ws = append(ws, s.wire)
 	}
 	return ws
+}
+
+// wsOnlyDiff: "literal-whitespace" when the two statement lists are equal as multisets (blank nodes
+// blinded) once all white space is removed from literal lexical forms; "" otherwise.
+func wsOnlyDiff(a, b []stmt) string {
+	if len(a) != len(b) {
+		return ""
+	}
+	norm := func(ss []stmt) string {
+		out := make([]string, len(ss))
+		for i, s := range ss {
+			q := s.quad
+			if l, ok := q.Triple.Object.(rdf.Literal); ok {
+				l.LexicalForm = strings.Join(strings.Fields(l.LexicalForm), "")
+				q.Triple.Object = l
+			}
+			out[i] = vh.QuadWire(q, func(rdf.BlankNode) string { return "_" })
+		}
+		sort.Strings(out)
+		return strings.Join(out, ";")
+	}
+	if norm(a) == norm(b) {
+		return "literal-whitespace"
+	}
+	return ""
 }
 
 // reasonKey: the stable key a missing-range reason starts with ("key: explanation").
